@@ -103,8 +103,95 @@ def post(ctx):
                 run.violation({o["tid"]}, {"text": t["text"], "clause": "well-formed control rejected", "outcome": o})
             else:
                 accepted += 1
-    return {"ill_formed_texts": sum(1 for t in texts if t["expect"] == "reject"), "ill_formed_rejected": rejected,
-            "well_formed_controls_accepted": accepted}
+    cov = {"ill_formed_texts": sum(1 for t in texts if t["expect"] == "reject"), "ill_formed_rejected": rejected,
+           "well_formed_controls_accepted": accepted}
+    cov.update(lines_part(run))
+    return cov
+
+
+LINE_REP = {"A": "x = x + 1", "I": "if x == 0:", "F": "elif x == 1:", "L": "else:", "E": "end", "W": "while true:", "T": "types",
+            "B": "", "C": "# note"}
+
+
+def lines_text(seq):
+    out, k = [], 0
+    for c in seq:
+        if c == "D":
+            k += 1
+            out.append(f"v{k} : Finite(0, 1)")
+        else:
+            out.append(LINE_REP[c])
+    return "\n".join(out) + "\n"
+
+
+def lines_part(run):
+    """spec -> code: spec/LineGrammar.tla enumerates every sequence of line categories up to a length (rejected prefixes
+    are not extended) with the verdict `well formed'; Polar's parser must accept exactly the well-formed texts"""
+    import json
+    import os
+    import shutil
+    import subprocess
+    import tempfile
+    from .. import tlc
+    quick = run.tier == "quick"
+    rng = random.Random(run.seed + 3)
+
+    def enumerate_(maxlen):
+        work = tempfile.mkdtemp(prefix="verif-lg-")
+        try:
+            cfg = os.path.join(work, "lg.cfg")
+            open(cfg, "w").write(f"CONSTANT MaxLen = {maxlen}\nSPECIFICATION Spec\nINVARIANT StackOnlyInBodies\nINVARIANT DoneHasNoOpenBlock\n"
+                                 "PROPERTY DeadIsFinal\nCONSTRAINT Emit\nCHECK_DEADLOCK FALSE\n")
+            cmd = ["java", "-XX:+UseParallelGC", "-Xmx6g", "-cp", tlc.TLC_CP, "tlc2.TLC", "-workers", "1", "-metadir",
+                   os.path.join(work, "meta"), "-noGenerateSpecTE", "-config", cfg, os.path.join(tlc.SPEC_DIR, "LineGrammar.tla")]
+            p = subprocess.run(cmd, cwd=tlc.SPEC_DIR, capture_output=True, text=True, timeout=3000)
+            m = tlc._STATS_RE.search(p.stdout)
+            if p.returncode != 0 or not m:
+                run.error("TLC LineGrammar: " + p.stdout[-1500:])
+                return [], 0
+            out = []
+            for line in p.stdout.splitlines():
+                if line.startswith('"@@LINES '):
+                    out.append(json.loads(json.loads(line)[len("@@LINES "):]))
+            return out, int(m.group(2))
+        finally:
+            shutil.rmtree(work, ignore_errors=True)
+    full, states = enumerate_(5 if quick else 6)
+    longer, states2 = enumerate_(8)
+    extra = [d for d in longer if len(d["s"]) > (5 if quick else 6)]
+    rng.shuffle(extra)
+    always = {"TDCDEWAE", "TDBDEWAE", "TDDEWAE", "WIAFALAEE", "WIAEIAEE", "AIALAEWAE", "TDEAWAEB", "WIIAEEE", "WIALAFAEE"}
+    extra.sort(key=lambda d: "".join(d["s"]) not in always)
+    # all well-formed longer texts first (they are rare), then a seeded sample of the others
+    extra = [d for d in extra if d["ok"]][: (1500 if quick else 6000)] + [d for d in extra if not d["ok"]][: (2500 if quick else 14000)]
+    extra += [d for d in longer if "".join(d["s"]) in always and d not in extra]
+    # a rejected prefix stays rejected whatever follows (DeadIsFinal): completions that would make the text well formed
+    # if the offending line were legal
+    suffixes = [["E", "W", "A", "E"], ["W", "A", "E"], ["A", "E"], ["E"], ["E", "E", "W", "A", "E"], ["A", "E", "W", "A", "E"]]
+    dead = [d for d in full + extra if d.get("dead")]
+    rng.shuffle(dead)
+    completed = [{"s": d["s"] + sf, "ok": False, "dead": True} for d in dead[: (1500 if quick else 8000)] for sf in suffixes]
+    items = full + extra + completed
+    jobs = [{"kind": "parse_many", "id": f"lg{i}", "texts": [lines_text(d["s"]) for d in items[i:i + 400]], "timeout": 600}
+            for i in range(0, len(items), 400)]
+    res = pool.run_jobs(jobs, per_job_timeout=600)
+    compared = bad = wf = 0
+    for i in range(0, len(items), 400):
+        r = res.get(f"lg{i}", {})
+        if "results" not in r:
+            run.error(f"parse_many job lg{i} failed: {r.get('stage')}")
+            continue
+        for d, (acc, exc) in zip(items[i:i + 400], r["results"]):
+            compared += 1
+            wf += 1 if d["ok"] else 0
+            if acc != d["ok"]:
+                bad += 1
+                if bad <= 25:
+                    run.violation({"lines:" + "".join(d["s"])},
+                                  {"clause": "well-formed text rejected" if d["ok"] else "ill-formed text accepted",
+                                   "line_categories": d["s"], "text": lines_text(d["s"]), "parser_exception": exc})
+    return {"line_grammar_states": states + states2, "line_texts_compared": compared, "line_texts_well_formed": wf,
+            "line_texts_disagreeing": bad, "line_grammar_exhaustive_up_to": 5 if quick else 6}
 
 
 def handwritten():
